@@ -24,7 +24,9 @@ def spec(tier, seed):
             for b0 in (0x7f, 0x80, 0xff):
                 certs.append(replace(b, serial=sn, serial_b0=b0))
         certs += [replace(b, san=(1, 2), strlen=3), replace(b, san=(4,), eku=(0, 6)), replace(b, issuance=2, aki=True, eku=(2,)),
-                  replace(b, aki=True, san=(1, 3), ku=4, eku=(1, 2), nc=2, nc_perm=(1,), nc_excl=(3,), crl_dps=(2,), is_ca=3, path_len=5, custom=2, custom_crit=2)]
+                  # (all of these in one shape exceed 11 GB / 20 min of symbolic execution: two halves)
+                  replace(b, aki=True, san=(1, 3), ku=4, eku=(1, 2), is_ca=3, path_len=5),
+                  replace(b, nc=2, nc_perm=(1,), nc_excl=(3,), crl_dps=(2,), custom=2, custom_crit=2)]
         csrs += [CsrShape(attrs=2, san=(0, 4)), CsrShape(custom=2, custom_crit=3, attrs=1), CsrShape(eku=(7, 1), attrs=2, strlen=3)]
         crls += [CrlShape(revoked=(r,), invalidity=1) for r in (1, 5, 8, 10)] + [CrlShape(idp=1, idp_uris=2), CrlShape(kid_len=0, revoked=(3,))]
     qs = [cert_query("c04", s, O_C04) for s in certs] + [csr_query("c04", s, O_C04) for s in csrs] + [crl_query("c04", s, O_C04) for s in crls]
